@@ -48,7 +48,7 @@ pub(crate) fn parse_crate_path(attrs: &[Attribute]) -> Result<TokenStream2, Erro
 
 /// Extract doc comments from attributes.
 ///
-/// Each `#[doc = "..."]` attribute becomes a single comment string.
+/// Each line of a `#[doc = "..."]` attribute becomes a single comment string.
 #[cfg(feature = "introspection")]
 pub(crate) fn extract_doc_comments(attrs: &[Attribute]) -> Vec<String> {
     let mut comments = Vec::new();
@@ -57,20 +57,27 @@ pub(crate) fn extract_doc_comments(attrs: &[Attribute]) -> Vec<String> {
         if attr.path().is_ident("doc") {
             // Try different parsing methods
             if let Ok(lit_str) = attr.parse_args::<syn::LitStr>() {
-                comments.push(lit_str.value());
+                push_doc_lines(&mut comments, &lit_str.value());
             } else if let syn::Meta::NameValue(meta_name_value) = &attr.meta {
                 if let syn::Expr::Lit(syn::ExprLit {
                     lit: syn::Lit::Str(lit_str),
                     ..
                 }) = &meta_name_value.value
                 {
-                    comments.push(lit_str.value());
+                    push_doc_lines(&mut comments, &lit_str.value());
                 }
             }
         }
     }
 
     comments
+}
+
+/// A comment is a single line: a doc attribute that spans several lines (a block comment, a string
+/// with line breaks) contributes one comment per line.
+#[cfg(feature = "introspection")]
+fn push_doc_lines(comments: &mut Vec<String>, doc: &str) {
+    comments.extend(doc.split('\n').map(|l| l.trim_end_matches('\r').to_string()));
 }
 
 /// Recursively removes all lifetimes from a type.
